@@ -77,6 +77,16 @@ func main() {
 		if err != nil {
 			die("%s: %v", op, err)
 		}
+	case "kv-init":
+		// the first start on an empty storage directory: the manager writes the initial file
+		c := kvstorage.NewConfig()
+		c.StorageDir = dir
+		c.EnableStorageAPI = true
+		c.EnabledStorages = []kvstorage.Type{kvstorage.TypeGeneral}
+		marker(dir)
+		if _, err := kvstorage.NewManager(c); err != nil {
+			die("NewManager: %v", err)
+		}
 	case "kv-add", "kv-remove":
 		c := kvstorage.NewConfig()
 		c.StorageDir = dir
